@@ -116,7 +116,8 @@ def _run_sym(h, case, payload):
     try:
         frontier = ctx.explore(lambda c: h.fn(c, case), seeds=seeds,
                                stop_when_frontier=payload.get('frontier'),
-                               yield_after=payload.get('yield_after'))
+                               yield_after=payload.get('yield_after'),
+                               deadline=payload.get('deadline'))
     except core.Budget as b:
         status, err = 'inconclusive', f"budget: {b}"
     except core.ShimGap:
@@ -404,6 +405,8 @@ def main(argv=None):
                 j = Job(modname, h, case, 'sym',
                         {'ci': ci, 'yield_after': 300})
             j.prio = 0 if case in h.cases else 1
+            if j.prio and deadline is not None:
+                j.payload['deadline'] = deadline
             jobs.append(j)
     results = []
     ncpu = os.cpu_count() or 4
@@ -430,6 +433,8 @@ def main(argv=None):
                for i in range(0, len(fr), k)]
         for x in out:
             x.prio = getattr(j, 'prio', 0)
+            if x.prio and deadline is not None:
+                x.payload['deadline'] = deadline
         return out
 
     def dropped(j):
